@@ -1,7 +1,7 @@
 """Property -> rule set, with the clause split that the manifest and the evidence repeat."""
 from __future__ import annotations
 
-from .rules import tables, config
+from .rules import tables, config, luts
 
 RULES = {
     'H1': tables.rule_H1,
@@ -10,6 +10,7 @@ RULES = {
     'H6': tables.rule_H6,
     'F1': config.rule_F1, 'F2': config.rule_F2, 'F3': config.rule_F3, 'F4': config.rule_F4,
     'G1': config.rule_G1, 'N4': config.rule_N4,
+    'H5a': luts.rule_H5a, 'H5b': luts.rule_H5b, 'H5c': luts.rule_H5c,
 }
 
 TRUSTED_BASE = [
@@ -73,8 +74,27 @@ _p('C09', ['F1', 'F2', 'F3', 'F4', 'G1', 'N4'],
                "of the lsb0/msb0 tables in Options.set_lsb0.",
    floors={'F1': 8, 'G1': 13})
 
+_p('C11', ['H5a', 'H5b', 'H5c', 'H2'],
+   decided=["every code of p3binary8, p4binary8, e5m2/e4m3 (both overflow modes), e3m2, e2m3, e2m1 decodes to the value "
+            "its format defines (sign, exponent, mantissa, subnormals, zeros, infinities, NaNs): all entries of the 9 "
+            "decode tables against an exact model",
+            "encoding yields the code nearest to the float's half-precision rounding, ties to even, with overflow, "
+            "infinities and NaN mapped per format and mxfp_overflow mode: all 9 x 65536 entries of the encode tables",
+            "the code selects and indexes the right table: byte order of the half-precision index, OverflowError "
+            "handler and clamp constants (= codes of +-inf), table keys, bit widths, overflow-mode selection, NaN "
+            "rejection for formats without NaN, e8m0/mxint/bfloat constants, scale multiplies on decode and divides on encode"],
+   declined=["mxint's round-to-nearest-even of 64*f and bfloat truncation as numerical results for every float64",
+             "float64 inputs between half-precision neighbours are covered only through the statement's own reduction "
+             "to the IEEE half-precision rounding performed by struct.pack('>e') (trusted leaf)"],
+   explanation="Exhaustive table validation by constant folding: zlib.decompress/struct.unpack of the bytes literals in "
+               "luts.py, compared entry by entry with an exact integer model of each format (independent of gfloat, "
+               "which generated the tables); partial evaluation of the 9 format-object constructors; structural "
+               "checks of the selection code.",
+   exhaustive=True, floors={'H5a': 1680, 'H5b': 589000, 'H5c': 60})
+
 
 TECHNIQUE = {
+    'C11': 'exhaustive table validation against an exact format model (constant folding of luts.py literals); partial evaluation of format constructors',
     'C09': 'call-graph reachability from lru_cache functions to option reads; global-write census; switch-table comparison',
     'C17': 'constant folding of the tofile chunk size; delegation and guard-dominance checks',
     'C18': 'regex character classes (re._parser) vs dict-literal tables vs struct.calcsize; branch interpretation',
